@@ -73,7 +73,7 @@ func init() {
 			"hostile_attempts:withdraw-unapproved-stage", "hostile_attempts:withdraw-non-owner", "hostile_attempts:withdraw-after-end", "hostile_attempts:two-withdraws-one-block",
 			"hostile_attempts:second-real-withdraw-one-block", "hostile_attempts:two-proposals-one-block", "hostile_attempts:progress-fake-secretary",
 			"compare_rounds", "compare_proposals", "committee_used_compared", "compete_rounds", "register_accepted_exact_fit",
-			"register_rejected_over_budget:mempool", "register_rejected_over_budget:block", "committee_reelected", "ledger_replays"},
+			"register_rejected_over_budget:mempool", "register_rejected_over_budget:block", "committee_reelected", "committee_change_with_released_unwithdrawn_stage", "committee_change_with_released_withdrawn_stage", "committee_change_with_unreleased_stage", "v1_withdraw_rolled_back_then_reincluded", "real_withdraw_checked_after_rollback", "ledger_replays"},
 		Assumptions: []string{
 			"regnet parameters on the compressed dpos-era schedule (kit/node/eras.go): CR voting/public voting periods 10 blocks, agreement count 3 of 4, payloads v0 below height 165 and v01 from there",
 			"the voter decision is modelled with a margin instead of the float circulation formula: >= 3.5M ELA of reject votes must cancel, <= 3.0M must not (workload uses 4M or <= 1000 ELA)",
@@ -133,11 +133,21 @@ type c29Flow struct {
 	votedBig   bool
 	filler     bool
 	lastStatus string
+	late       bool     // registered shortly before the voting period of a term that ends with a re-election: holds its released stages over the change
 	closer     *c29Flow // the CloseProposal registered against this proposal by an "XE" step
 	endKind    payload.CRCProposalTrackingType
 }
 
+// c29Blk: a connected block with what was observed about the committee when it was applied (to rebuild the model after a reorganisation).
+type c29Blk struct {
+	b                   *types.Block
+	inElection, changed bool
+}
+
 type c29 struct {
+	hist      []c29Blk // the active chain as fed to the model, index = height
+	rollbacks int
+
 	c     *kit.Ctx
 	nd    *node.Node
 	e     *node.Era
@@ -177,6 +187,8 @@ type c29 struct {
 	foreignDone       bool
 	diverged          bool // the node's bookkeeping and the model disagree (reported): the rest of the history would only repeat it
 	twoTrackings      int
+	reelect           bool   // a new committee is elected at the end of the term (flavors 1 and 3)
+	termEnd           uint32 // height of the next committee change
 	competeDone       int
 	memberBusy        map[string]bool // sponsoring members with a proposal waiting in the pool (one per member)
 }
@@ -266,6 +278,13 @@ func (s *c29) mine() bool {
 
 // after feeds a connected block to the model and compares.
 func (s *c29) after(b *types.Block, inElectionBefore bool) {
+	defer func() { s.cause = "honest-flow" }()
+	s.apply(b, inElectionBefore)
+	s.compare()
+}
+
+// apply advances the model by one connected block (no comparison yet).
+func (s *c29) apply(b *types.Block, inElectionBefore bool) {
 	changed := s.nd.Committee.LastCommitteeHeight == b.Height && b.Height != s.lastCommitteeH
 	if changed {
 		s.lastCommitteeH = b.Height
@@ -294,7 +313,38 @@ func (s *c29) after(b *types.Block, inElectionBefore bool) {
 		return ""
 	})
 	s.synced = b.Height
-	defer func() { s.cause = "honest-flow" }()
+	s.hist = append(s.hist, c29Blk{b, inElectionBefore, changed})
+	if changed && b.Height > s.nd.Cfg.CRConfiguration.CRCommitteeStartHeight+1 {
+		// a committee change with proposals in flight: which (released?, withdrawn?) stage states cross it
+		if s.cause == "honest-flow" || s.cause == "" {
+			s.cause = "committee-change"
+		}
+		for _, ph := range s.m.Order {
+			p := s.m.Props[ph]
+			if p.Tainted || len(p.Stages) == 0 {
+				continue
+			}
+			s.c.Inc("committee_change_crossed_by:" + p.Status)
+			if p.Status != c29VoterAgreed {
+				for _, st := range p.Stages {
+					if (p.Status == c29Finished || p.Status == c29Terminated) && st.ApprovedAt != 0 && st.WithdrawnAt == 0 && st.Amount > 0 {
+						s.c.Inc("committee_change_with_released_unwithdrawn_stage_of_ended_proposal")
+					}
+				}
+				continue
+			}
+			for _, st := range p.Stages {
+				switch {
+				case st.ApprovedAt != 0 && st.WithdrawnAt == 0 && st.Amount > 0:
+					s.c.Inc("committee_change_with_released_unwithdrawn_stage")
+				case st.ApprovedAt != 0 && st.WithdrawnAt != 0:
+					s.c.Inc("committee_change_with_released_withdrawn_stage")
+				case st.ApprovedAt == 0:
+					s.c.Inc("committee_change_with_unreleased_stage")
+				}
+			}
+		}
+	}
 	s.memberBusy = map[string]bool{}
 	s.poolCommitted = new(big.Int)
 	for _, tx := range s.nd.TxPool.GetTxsInPool() {
@@ -324,7 +374,6 @@ func (s *c29) after(b *types.Block, inElectionBefore bool) {
 			}
 		}
 	}
-	s.compare()
 }
 
 // compare checks the node's proposal / committee bookkeeping against the model.
@@ -408,7 +457,7 @@ func (s *c29) compare() {
 		}
 	}
 	if !same {
-		s.modelViol("model-diff:pending-payouts", fmt.Sprintf("height %d: node has %d pending real-withdraw requests, model %d", s.synced, len(pendNode), len(s.m.Pending)), nil)
+		s.modelViol("model-diff:pending-payouts"+s.causeSuffix(), fmt.Sprintf("height %d: node has %d pending real-withdraw requests, model %d", s.synced, len(pendNode), len(s.m.Pending)), nil)
 	}
 	// committee level
 	if s.m.TermStartH != 0 && !s.m.CommitteeTainted {
@@ -777,6 +826,183 @@ func (s *c29) twoTrackingsOneBlock(f *c29Flow) {
 	s.after(b, inElection)
 }
 
+// rebuildModel replays the recorded active chain up to height upTo into a fresh
+// model (silently: those blocks were judged when they were connected).
+func (s *c29) rebuildModel(upTo uint32) {
+	old := s.m
+	m := newC29Model(old.P, func(string, string, *c29P) {}, func(string) {})
+	for _, e := range s.hist[:upTo+1] {
+		m.Apply(e.b, e.inElection, e.changed, "replay", func(common.Uint256) string { return "" })
+	}
+	for h, p := range old.Props {
+		if q := m.Props[h]; q != nil && p.Tainted {
+			q.Tainted = true
+		}
+	}
+	m.CommitteeTainted = old.CommitteeTainted
+	m.viol, m.event = old.viol, old.event
+	s.m = m
+	s.hist = s.hist[:upTo+1]
+	s.synced = upTo
+}
+
+// rollbackWithdraw: a block holding a payload-v1 withdraw request is
+// disconnected by the node's own reorganisation path (a longer competing
+// branch handed to ProcessBlock) before its real-withdraw was mined; the new
+// branch carries the owner's request as a DIFFERENT transaction. The model is
+// rebuilt from the new active chain; the pending payout requests, and what the
+// following real-withdraw pays, must equal the model's.
+func (s *c29) rollbackWithdraw() {
+	nd := s.nd
+	next := nd.Height() + 1
+	if len(s.pend) != 0 || s.fatal || s.diverged || s.rollbacks >= 2 || !s.m.TermKnown || next < s.e.RevertToPOWStart+8 ||
+		next+6 >= s.termEnd && next <= s.termEnd+6 || len(nd.Committee.GetRealWithdrawTransactions()) != 0 || s.r.Intn(3) != 0 {
+		return
+	}
+	var f *c29Flow
+	var ownerKey *account.Account
+	var amt common.Fixed64
+	var rcpt common.Uint168
+	for _, x := range s.flows {
+		p := s.m.Props[x.hash]
+		if !x.mined || x.target != nil || p == nil || p.Tainted || s.holding(x) {
+			continue
+		}
+		ps := nd.Committee.GetProposal(x.hash)
+		if ps == nil {
+			continue
+		}
+		a := nd.Committee.AvailableWithdrawalAmount(x.hash)
+		o := node.KeyByPub(ps.ProposalOwner)
+		if a > s.realFee && o != nil {
+			f, ownerKey, amt, rcpt = x, o, a, ps.Recipient
+			break
+		}
+	}
+	if f == nil {
+		return
+	}
+	in1, ok := s.take(ownerKey)
+	if !ok {
+		return
+	}
+	parent := nd.TipBlock()
+	w1 := node.CRCProposalWithdraw(in1, ownerKey, f.hash, rcpt, amt)
+	if !s.submit("CRCProposalWithdraw:to-be-rolled-back", in1, w1) || !s.mine() {
+		return
+	}
+	B := nd.TipBlock()
+	h1 := w1.Hash()
+	has := false
+	for _, tx := range B.Transactions {
+		if tx.Hash().IsEqual(h1) {
+			has = true
+		}
+	}
+	if !has || B.Height != parent.Height+1 || nd.Committee.IsAppropriationNeeded() || nd.Arbiters.IsNeedNextTurnDPOSInfo() ||
+		nd.Committee.LastCommitteeHeight == B.Height || s.diverged {
+		s.c.Inc("rollback_skipped_block_not_suitable")
+		return
+	}
+	in2, ok := s.w.Take(s.attacker, node.ELA(1))
+	if !ok {
+		return
+	}
+	s.rollbacks++
+	w2 := node.CRCProposalWithdraw(in2, ownerKey, f.hash, rcpt, amt)
+	var txs []interfaces.Transaction
+	var fees common.Fixed64
+	for _, tx := range B.Transactions[1:] {
+		if tx.Hash().IsEqual(h1) {
+			tx = w2
+		}
+		txs = append(txs, tx)
+		refs, err := nd.Chain.UTXOCache.GetTxReference(tx)
+		if err != nil {
+			s.c.Inc("rollback_skipped_no_references")
+			s.w.Release(in2)
+			return
+		}
+		for _, o := range refs {
+			fees += o.Value
+		}
+		for _, o := range tx.Outputs() {
+			fees -= o.Value
+		}
+	}
+	s.c.Begin("rollback of block %d holding a v1 withdraw", B.Height)
+	s.c.Inc("rollback_attempts")
+	a1, err := nd.AssembleOn(node.BlockSpec{Parent: parent, Txs: txs, Fees: fees, Nonce: 0xc29a1})
+	if err != nil {
+		s.c.Inc("rollback_assemble_failed")
+		s.w.Release(in2)
+		return
+	}
+	a2, err := nd.AssembleOn(node.BlockSpec{Parent: a1, Nonce: 0xc29a2})
+	if err != nil {
+		s.c.Inc("rollback_assemble_failed")
+		s.w.Release(in2)
+		return
+	}
+	// both blocks of the competing branch are confirmed by the arbiters (the sibling by the same sponsor as the block it replaces):
+	// blocks connected without a confirm count as missed by the on-duty arbiter and turn the CR members inactive
+	var cf1, cf2 *payload.Confirm
+	if nd.NeedsConfirm(a1.Height) {
+		db, e := nd.Chain.GetDposBlockByHash(B.Hash())
+		if e != nil || db.Confirm == nil {
+			s.c.Inc("rollback_skipped_no_confirm_of_replaced_block")
+			s.w.Release(in2)
+			return
+		}
+		cf1, err = nd.ConfirmWith(a1, node.ConfirmOpts{Sponsor: db.Confirm.Proposal.Sponsor, ViewOffset: db.Confirm.Proposal.ViewOffset})
+		if err == nil {
+			cf2, err = nd.ConfirmFor(a2)
+		}
+		if err != nil {
+			s.c.Inc("rollback_skipped_confirm_failed")
+			s.w.Release(in2)
+			return
+		}
+	}
+	nd.Chain.ProcessBlock(a1, cf1)
+	_, _, perr := nd.Chain.ProcessBlock(a2, cf2)
+	if !nd.Tip().IsEqual(a2.Hash()) {
+		s.c.Inc("rollback_refused_by_node")
+		s.trace("reorganisation refused: %v", perr)
+		s.w.Release(in2)
+		return
+	}
+	nd.PostBlock(a1)
+	nd.PostBlock(a2)
+	nd.Chain.UTXOCache.CleanTxCache()
+	s.w.Release(in1)
+	s.trace("REORG: block %d (withdraw %s) replaced by %d,%d (withdraw %s)", B.Height, h1.String()[:12], a1.Height, a2.Height, w2.Hash().String()[:12])
+	inElB := s.hist[B.Height].inElection
+	s.rebuildModel(parent.Height)
+	s.cause = "withdraw-rolled-back-and-reincluded"
+	s.apply(a1, inElB)
+	s.apply(a2, nd.Committee.IsInElectionPeriod())
+	s.c.Inc("v1_withdraw_rolled_back_then_reincluded")
+	s.c.Case("rollback:"+h1.String(), true)
+	s.compare()
+	// the payout: the next real-withdraw must settle exactly the re-included request
+	h2 := w2.Hash()
+	for i := 0; i < 3 && !s.fatal; i++ {
+		s.cause = "withdraw-rolled-back-and-reincluded"
+		if !s.mine() {
+			return
+		}
+		if at, ok := s.m.PaidReq[h2]; ok && at == nd.Height() {
+			s.c.Inc("real_withdraw_checked_after_rollback")
+			if ps := nd.Committee.GetRealWithdrawTransactions(); len(ps) == 0 {
+				s.c.Inc("no_payout_request_left_after_rollback_payout")
+			}
+			return
+		}
+	}
+	s.c.Inc("real_withdraw_not_seen_after_rollback")
+}
+
 // mineCustom mines a block with exactly txs plus the node-generated
 // transactions that pass keep.
 func (s *c29) mineCustom(keep func(interfaces.Transaction) bool, txs ...interfaces.Transaction) (*types.Block, bool) {
@@ -1122,6 +1348,13 @@ func (s *c29) plan(f *c29Flow) {
 		}
 		return
 	}
+	if f.late {
+		f.reject = 0
+		for i := 0; i < nm; i++ {
+			f.review[i] = int(payload.Approve)
+			f.reviewAge[i] %= 3
+		}
+	}
 	// script
 	var normals []uint8
 	for _, b := range f.budgets {
@@ -1238,6 +1471,10 @@ func (s *c29) legitWithdraw(f *c29Flow) bool {
 		}
 		return false
 	}
+	if s.holding(f) {
+		s.c.Inc("withdraw_held_over_committee_change")
+		return false
+	}
 	owner := node.KeyByPub(ps.ProposalOwner)
 	if owner == nil {
 		return false
@@ -1250,6 +1487,14 @@ func (s *c29) legitWithdraw(f *c29Flow) bool {
 		}
 	}
 	return s.submit("CRCProposalWithdraw", in, node.CRCProposalWithdraw(in, owner, f.hash, ps.Recipient, amt))
+}
+
+// holding: in a term that ends with a re-election, half of the histories (and
+// every late one) do not withdraw during the last blocks of the term, so that
+// stages are released-but-unwithdrawn exactly when the committee changes.
+func (s *c29) holding(f *c29Flow) bool {
+	h := s.nd.Height() + 1
+	return s.reelect && h+24 >= s.termEnd && h <= s.termEnd+1 && (f.late || f.id%2 == 0)
 }
 
 // tick lets one proposal history take its next step before the next block.
@@ -1295,6 +1540,20 @@ func (s *c29) tick(f *c29Flow) {
 	case c29VoterAgreed:
 		if f.target != nil {
 			return
+		}
+		if next := s.nd.Height() + 1; s.reelect && next+4 >= s.termEnd && next <= s.termEnd && !f.done["progress-before-change"] && f.id%3 != 2 {
+			// a stage is released by the secretary general in the last blocks of the term
+			for _, b := range f.budgets {
+				if _, ok := ps.WithdrawableBudgets[b.Stage]; !ok && b.Type == payload.NormalPayment && b.Amount > s.realFee {
+					if owner := node.KeyByPub(ps.ProposalOwner); owner != nil {
+						if in, ok := s.take(owner); ok && s.submit("CRCProposalTracking:Progress:before-committee-change", in, s.trackingTx(in, owner, s.sec, f, payload.Progress, b.Stage, nil)) {
+							f.done["progress-before-change"] = true
+							return
+						}
+					}
+					break
+				}
+			}
 		}
 		if f.closer != nil && f.closer.mined && !f.done["end-during-close-vote"] {
 			if cs := s.nd.Committee.GetProposal(f.closer.hash); cs != nil && cs.Status.String() == c29CRAgreed && s.r.Intn(3) != 0 {
@@ -1444,6 +1703,7 @@ func (s *c29) preBlock() {
 	if s.c.Shard%4 == 1 {
 		s.foreignRealWithdraw()
 	}
+	s.rollbackWithdraw()
 	// late in the term (the committee-level comparison stops for the rest of it if the bookkeeping goes wrong):
 	// two trackings of one proposal in one block, for up to three proposals that still have an unapproved normal stage
 	if s.c.Shard%3 == 2 && s.twoTrackings < 3 && s.nd.Height()+16 >= s.registerUntil && s.nd.Height() < s.registerUntil+10 {
@@ -1807,6 +2067,7 @@ func (s *c29) run(funding common.Fixed64, duty uint32) {
 			c.Inconclusive("block %d: %v", h, err)
 			return
 		}
+		s.hist = append(s.hist, c29Blk{b, h > nd.Cfg.CRConfiguration.CRCommitteeStartHeight, h == nd.Committee.LastCommitteeHeight})
 		s.m.Apply(b, h > nd.Cfg.CRConfiguration.CRCommitteeStartHeight, h == nd.Committee.LastCommitteeHeight, "bootstrap", func(common.Uint256) string { return "" })
 	}
 	s.synced = nd.Height()
@@ -1847,8 +2108,12 @@ func (s *c29) run(funding common.Fixed64, duty uint32) {
 	s.registerUntil = votingStart - 1
 	s.endH = lastCommittee + duty + 6
 	termEnd := lastCommittee + duty
+	s.termEnd = termEnd
+	s.reelect = s.flavor == 1 || s.flavor == 3
 	if s.flavor == 1 {
 		s.endH = termEnd + 60
+	} else if s.reelect {
+		s.endH = termEnd + 25
 	}
 	var newCRs, newNodes []*account.Account
 	competeAt := map[uint32]bool{}
@@ -1857,12 +2122,11 @@ func (s *c29) run(funding common.Fixed64, duty uint32) {
 		competeAt[e.CRClaimDPOSNodeStart+uint32(15+s.r.Intn(10))] = true
 	case 1:
 		competeAt[uint32(95+s.r.Intn(6))] = true
-		competeAt[votingStart-uint32(12+s.r.Intn(6))] = true
+		// no second round late in the term: the late registrations (stages released right before the re-election) need room; the new term gets its own round
 	case 2:
 		competeAt[e.CRClaimDPOSNodeStart+uint32(5+s.r.Intn(8))] = true // early: the unreviewed fillers must be cancelled (budget released) before the late registrations
 	default:
 		competeAt[e.CRClaimDPOSNodeStart+uint32(30+s.r.Intn(30))] = true
-		competeAt[votingStart-uint32(20+s.r.Intn(10))] = true
 	}
 	overflowAt := votingStart - uint32(3+s.r.Intn(5))
 	maxFlows := c.N(10, 14)
@@ -1887,7 +2151,7 @@ func (s *c29) run(funding common.Fixed64, duty uint32) {
 			}
 		}
 		// flavor 1: new candidates run in the voting period, get elected, claim their nodes; the histories go on under the new committee
-		if s.flavor == 1 {
+		if s.reelect {
 			switch {
 			case next == votingStart+1:
 				for i := 0; i < len(boot.Members)+1; i++ {
@@ -1922,6 +2186,7 @@ func (s *c29) run(funding common.Fixed64, duty uint32) {
 					boot.Members = ms
 					c.Inc("committee_reelected")
 					lastCommittee = nd.Committee.LastCommitteeHeight
+					s.termEnd = lastCommittee + duty
 					s.registerUntil = lastCommittee + duty - e.CRVotingPeriod - 1
 					registered = maxFlows - 4
 					competeAt[next+uint32(12+s.r.Intn(8))] = true
@@ -1940,7 +2205,8 @@ func (s *c29) run(funding common.Fixed64, duty uint32) {
 			s.overflowProbe()
 		}
 		// new histories
-		late := s.flavor == 2 && next >= s.registerUntil-7 && next < s.registerUntil-2 // still Registered / CRAgreed when the term ends
+		// flavor 2: still Registered / CRAgreed when the term ends; re-election flavors: VoterAgreed with freshly released stages when the committee changes
+		late := (s.flavor == 2 || s.reelect) && next >= s.registerUntil-7 && next < s.registerUntil-2 && next < s.termEnd
 		if late && registered >= maxFlows {
 			registered = maxFlows - 1
 		}
@@ -1966,6 +2232,7 @@ func (s *c29) run(funding common.Fixed64, duty uint32) {
 					break
 				}
 				f.budgets = s.genBudgets(max, typ == payload.ELIP)
+				f.late = late && s.reelect
 				if s.register(f) {
 					registered++
 				}
